@@ -72,6 +72,12 @@ func main() {
 		os.Exit(cmdCheck(os.Args[2:]))
 	case "lang":
 		os.Exit(cmdLang(os.Args[2:]))
+	case "dump-harness":
+		// development aid: write a replay harness to stdout
+		if len(os.Args) > 2 && os.Args[2] == "C17" {
+			fmt.Print(c17Harness)
+		}
+		return
 	case "sweep":
 		os.Exit(cmdSweep(os.Args[2:]))
 	default:
